@@ -20,7 +20,7 @@ type Case struct {
 	NearWrap bool `json:"near_wrap,omitempty"`
 }
 
-var kinds = []string{"add", "add", "add", "add", "get", "get", "list", "seen", "remove", "remove", "purge", "visit"}
+var kinds = []string{"add", "add", "add", "add", "get", "get", "list", "seen", "remove", "remove", "purge", "visit", "addfail"}
 
 var prop = hx.Prop[Case]{
 	ID: pid, Name: "hist",
